@@ -457,7 +457,8 @@ fn check_finite_memory(kind: &str, n: usize, pre1: &[f64], pre2: &[f64], suffix:
             if kind == "roc" && suffix[t + 1 - k] == 0.0 { continue; }
             if residue_sensitive(kind) && flat(&suffix[t + 1 - k..=t]) { continue; }
             let _ = w;
-            if !oclose(v1.last(), v2.last()) { return Some(format!("suffix step {t}: {:?} vs {:?} after different prefixes", v1.last(), v2.last())); }
+            let same = if residue_sensitive(kind) { match (v1.last(), v2.last()) { (Some(p), Some(q)) => (p - q).abs() <= 1e-4 * (1.0 + p.abs().max(q.abs())), (None, None) => true, _ => false } } else { oclose(v1.last(), v2.last()) };
+            if !same { return Some(format!("suffix step {t}: {:?} vs {:?} after different prefixes", v1.last(), v2.last())); }
         }
     }
     None
@@ -645,7 +646,7 @@ fn search(prop: &str, s: &mut Search) -> (usize, Option<Case>) {
             "C14" => if BINARY.contains(&k) { c.inner = format!("{}+{}", s.rng.pick(&inners[..8]), s.rng.pick(&inners[..8])); }
                      else if k != "echo" { c.inner = s.rng.pick(&["echo", "sma", "cumulative", "roc", "ema", "max"]).into(); },
             "C03" => { let kk = 2 * n + 3; let extra = s.rng.below(4) as usize; let suffix = gen_stream(&mut s.rng, kk + extra, false);
-                let l2 = 1 + s.rng.below(12) as usize; let mut p2 = gen_stream(&mut s.rng, l2, false); if s.rng.below(2) == 0 { p2.push(1024.0); }
+                let l2 = 1 + s.rng.below(12) as usize; let mut p2 = gen_stream(&mut s.rng, l2, false); if s.rng.below(2) == 0 { p2.push(if residue_sensitive(k) { 64.0 } else { 1024.0 }); }
                 c.b = suffix.len() as f64; p2.extend(suffix.iter()); c.stream2 = p2; },
             "C12" => { c.a = s.rng.pick(&[0.5, 2.0, 4.0, 0.25]); c.b = s.rng.pick(&[0.0, 1.0, -2.0, 8.0]); },
             "C04x" => {},
